@@ -80,6 +80,28 @@ def OpenOnlyLast : List Item → Prop
 def WF (head : List BlankLine) (items : List Item) : Prop :=
   (∀ b ∈ head, b.WF) ∧ (∀ x ∈ items, IsBlanks x.lead ∧ Valid x.ins ∧ x.term.WF) ∧ OpenOnlyLast items
 
+/-! decidability, so that concrete decorated programs can be shown well formed by evaluation -/
+instance (l : List Nat) : Decidable (IsBlanks l) := by unfold IsBlanks; exact inferInstance
+instance (l : List Nat) : Decidable (IsCommentBody l) := by unfold IsCommentBody; exact inferInstance
+instance (c : Option (List Nat)) : Decidable (∀ x, c = some x → IsCommentBody x) :=
+  match c with
+  | none => isTrue (by intro x h; cases h)
+  | some b => if h : IsCommentBody b then isTrue (by intro x hx; cases hx; exact h)
+              else isFalse (fun hh => h (hh b rfl))
+instance (b : BlankLine) : Decidable b.WF := by unfold BlankLine.WF; exact inferInstance
+instance (t : Term) : Decidable t.WF := by
+  cases t <;> unfold Term.WF <;> exact inferInstance
+instance (i : Disasm.Instr) : Decidable (Listing.Valid i) := by unfold Listing.Valid; exact inferInstance
+instance : (items : List Item) → Decidable (OpenOnlyLast items)
+  | [] => isTrue trivial
+  | [_] => isTrue trivial
+  | x :: y :: rest =>
+    match (inferInstance : Decidable (x.term.isOpen = false)), (instDecidableOpenOnlyLast (y :: rest)) with
+    | isTrue a, isTrue b => isTrue ⟨a, b⟩
+    | isFalse a, _ => isFalse (fun h => a h.1)
+    | _, isFalse b => isFalse (fun h => b h.2)
+instance (head : List BlankLine) (items : List Item) : Decidable (WF head items) := by unfold WF; exact inferInstance
+
 end Layout
 end Asm
 end EtkVerif
